@@ -202,27 +202,33 @@ def run(ctx):
     for f, ls in rank_lambdas("KillPressure"):
         for l in ls:
             fl = Flow(P, l, cg=cg)
-            ws = local_writes(l, "average")
-            ctx.count("pressure_mean_writes", len(ws))
-            init, v = local_init(l, "average")
-            ctx.check(v is not None and v.get("tw", "").startswith("f"), "metric:kill_by_pressure:key-is-fractional", "E-TYPE deduced type", l.loc(), "the mean is kept as a floating value",
-                      "the mean pressure is stored in %s" % (v.get("type") if v else "?"))
-            for w in ws:
-                rhs = l.text(write_rhs(l, w))
-                g = fl.guards(w)
+            # where the key comes from: a local that is returned (its assignments), or the returns themselves
+            rl = {ret_text(l, r) for r in returns(l)}
+            keyvar = next((t_ for t_ in rl if re.match(r"^\w+$", t_) and local_init(l, t_, must=False)[1] is not None and local_writes(l, t_, must=False)), None)
+            if keyvar is not None:
+                srcs = [(w, write_rhs(l, w)) for w in local_writes(l, keyvar)]
+                init, v = local_init(l, keyvar)
+                frac = v is not None and v.get("tw", "").startswith("f")
+                ftype = v.get("type") if v else "?"
+            else:
+                srcs = [(r, leaf) for r, leaf in return_leaves(l) if l.text(leaf) not in ("0", "0.0", "0.F", "0.0F")]
+                frac = any(x in (l.d.get("ret") or "") for x in ("float", "double"))
+                ftype = l.d.get("ret")
+            ctx.count("pressure_mean_writes", len(srcs))
+            ctx.check(frac, "metric:kill_by_pressure:key-is-fractional", "E-TYPE deduced type", l.loc(), "the mean is kept as a floating value",
+                      "the mean pressure is stored in %s" % ftype)
+            for w, rhs_n in srcs:
+                rhs = l.text(rhs_n)
+                g = fl.guards(rhs_n if l.pos_of(rhs_n) is not None else w)
                 case = [p for k, p in g if isinstance(p, str) and p.startswith("case:")]
                 src = "io_pressure" if "case:IO" in case else "mem_pressure" if "case:MEMORY" in case else None
                 norm = re.sub(r"pressure@\d+", "pressure", rhs).replace("->->", "->")
                 ctx.check(re.match(r"^\(\(pressure->sec_10 / 2\) \+ \(pressure->sec_60 / 2\)\)$", norm) is not None, "metric:kill_by_pressure:mean-of-10s-and-60s", "value-shape", l.loc(w),
                           "key = sec_10/2 + sec_60/2", "key = " + rhs)
-                init_p = None
-                for d in l.all("decl"):
-                    for vv in l.nodes[d].get("vars", []):
-                        if vv["name"] == "pressure" and "init" in vv and l.pos_of(d) is not None and has_fact(fl.guards(d), case[0] if case else "x", ""):
-                            init_p = l.text(vv["init"])
                 ctx.check(src is not None, "metric:kill_by_pressure:resource-case", "switch_table", l.loc(w), "mean computed under the configured resource's case", "mean assigned outside a resource case")
-            for r in returns(l):
-                ctx.check(ret_text(l, r) == "average", "metric:kill_by_pressure:returns-mean", "return_table", l.loc(r), "the key returned is the mean", "returns " + ret_text(l, r))
+            if keyvar is not None:
+                for r in returns(l):
+                    ctx.check(ret_text(l, r) == keyvar, "metric:kill_by_pressure:returns-mean", "return_table", l.loc(r), "the key returned is the mean", "returns " + ret_text(l, r))
             # each case reads the pressure of its resource
             for d in l.all("decl"):
                 for vv in l.nodes[d].get("vars", []):
